@@ -27,7 +27,27 @@ def main():
     ap.add_argument("--tier", default="quick")
     ap.add_argument("--skip-suite", action="store_true")
     ap.add_argument("--wt", default="")
+    ap.add_argument("--recheck", action="store_true", help="only re-run the checks against HEAD + the stored patch and record the result under checks_now")
     a = ap.parse_args()
+    if a.recheck:
+        dest = "/verif/seeded/" + a.id + (("-" + a.name) if a.name else "")
+        meta = json.load(open(os.path.join(dest, "meta.json")))
+        d = tempfile.mkdtemp(prefix="seedchk-")
+        sh("git -C /repo archive HEAD | tar -x -C " + d)
+        rc, out = sh("patch -p1 -s < %s/patch.diff" % dest, cwd=d)
+        meta.setdefault("checks_now", {})
+        for pid in [p for p in (a.props.split(",") if a.props else [a.id]) if p]:
+            t0 = time.time()
+            rc, out = sh("VERIF_REPO=%s ./check %s --tier %s" % (d, pid, a.tier), cwd="/verif", timeout=4000)
+            viol = re.findall(r"^\s+scenario=(\S+) kind=(\S+) sig=(\S+) msg=(.*)$", out, re.M)
+            meta["checks_now"][pid + "/" + a.tier] = {"exit": rc, "detected": rc == 1, "wall_s": round(time.time() - t0),
+                                                      "violations": [{"scenario": v[0], "sig": v[2], "msg": v[3][:300]} for v in viol[:3]],
+                                                      "broken": [l[:300] for l in out.splitlines() if "BROKEN" in l or "UNREPRO" in l][:3]}
+            meta.setdefault("what_was_run", []).append("after strengthening: VERIF_REPO=<scratch copy of /repo HEAD + patch> ./check %s --tier %s: exit %d" % (pid, a.tier, rc))
+        shutil.rmtree(d, ignore_errors=True)
+        json.dump(meta, open(os.path.join(dest, "meta.json"), "w"), indent=1)
+        print(json.dumps(meta["checks_now"], indent=1))
+        return 0
     wt = a.wt or ("/tmp/wt-" + a.id)
     dest = "/verif/seeded/" + a.id + (("-" + a.name) if a.name else "")
     os.makedirs(dest, exist_ok=True)
